@@ -3,6 +3,8 @@ import MidnightZK.Model.Common
 import MidnightZK.Model.C16.Points
 import MidnightZK.Model.C16.Arch
 import MidnightZK.Model.C16.VK
+import MidnightZK.Model.C16.Proof
+import MidnightZK.Model.C16.IR
 /-!
 Line-protocol handler of property C16.
 
@@ -83,6 +85,48 @@ def step (c : Cache) (line : String) : Cache × String :=
           s!"{m.arch.render} mb={m.maxBitLen} pi={m.nbPublicInputs} {renderVK m.vk} rest={r.length} canon={fmtBool canon}")
         (decodeMVKWith (cachedDec c f) f.g1Size (ColConsts.ofList cl) (fun _ => ⟨nf, np, deg⟩) bs)
     | _, _, _, _, _, _ => "bad-op")
+  | ["proofsched", shape] =>
+    (c, match parseNatList? shape with
+    | some [a, l, t, pm, d, iq, aq, fq, ns] =>
+      let s : ProofShape := ⟨a, l, t, pm, d, iq, aq, fq, ns⟩
+      s!"{String.ofList ((proofSchedule s).map Elem.render)} len={proofLen s} plonk={(plonkSchedule s).length}"
+    | _ => "bad-op")
+  | ["proof", shape, hex] =>
+    match parseNatList? shape, parseHexBytes? hex with
+    | some [a, l, t, pm, d, iq, aq, fq, ns], some bs =>
+      let s : ProofShape := ⟨a, l, t, pm, d, iq, aq, fq, ns⟩
+      -- remember the point chunks of this proof (they recur in every mutant of the same proof)
+      let (n, v) := parseProof (cachedDec c .processed) s bs
+      let c' := Id.run do
+        let mut c' := c
+        let mut rest := bs
+        for e in proofSchedule s do
+          if rest.length < e.size then break
+          if e == .pt then
+            let a := rest.take 48
+            if !(c'.contains (true, a)) then
+              c' := c'.insert (true, a) (decodeG1 .processed a)
+          rest := rest.drop e.size
+        return c'
+      (c', s!"reads={n} {v.toString}")
+    | _, _ => (c, "bad-op")
+  | ["irb", szI, szS, lim, hex] =>
+    (c, match szI.toNat?, szS.toNat?, lim.toNat?, parseHexBytes? hex with
+    | some szI, some szS, some lim, some bs =>
+      renderE (fun (prog, r) => s!"n={prog.length} dg={irDigest prog} rest={r.length}")
+        (decodeRelation ⟨szI, szS, lim⟩ bs)
+    | _, _, _, _ => "bad-op")
+  | ["irarity", spec] =>
+    (c, if spec = "-" then "ok" else
+      match (spec.splitOn ",").mapM (fun t =>
+        match (t.splitOn ":").mapM String.toNat? with
+        | some [a, b, d] => some (a, b, d)
+        | _ => none) with
+      | some l =>
+        match firstArityFailure l 0 with
+        | none => "ok"
+        | some k => s!"err {((irOps[(l[k]?.getD (0, 0, 0)).1]?).getD ("?", 0)).1}"
+      | none => "bad-op")
   | _ => (c, "bad-op")
 
 /-- Stateless entry point (fresh memo table). -/
